@@ -1,7 +1,7 @@
 (* What LineFormatPlanner.ProcessTpl (clickhouse_planner/planner_line_format.go) makes of the template text of a
    `| line_format "..."` stage: template.New(..).Parse(text) of Go's text/template, then visitNodes over the parse tree,
-   which appends every TextNode's bytes to the format string and, for every FieldNode that is an argument of a command of
-   an ActionNode, "{n}" plus the argument labels['<first identifier of the field>'].
+   which appends every TextNode's bytes (literal braces doubled) to the format string and, for every FieldNode that is an
+   argument of a command of an ActionNode, "{n}" plus the argument labels['<first identifier of the field>'].
 
    Transcribed here: the lexer (text/template/parse/lex.go: lexText, lexLeftDelim, lexRightDelim, lexInsideAction, lexSpace,
    lexField, atTerminator, the trim markers "{{- " and " -}}") and the parser (parse.go: textOrAction, action, pipeline,
@@ -15,11 +15,14 @@
    non-ASCII identifiers) is answered TUnmodelled: the model says nothing about such a template. TErr = Parse returns an
    error. Executable definitions only. *)
 From Coq Require Import List NArith String Ascii Bool.
-From Qryn Require Import lib.Strs model.Sql.
+From Qryn Require Import lib.Strs lib.DecN model.Sql.
 Import ListNotations.
 Open Scope string_scope.
 
-Inductive tnode := TText (s : string) | TField (name : string).      (* name = FieldNode.Ident[0] *)
+(* the parse tree: text, and actions = pipelines of commands whose operands are fields (.name.c1.c2: Ident = name :: chain)
+   or the dot *)
+Inductive oper := OF (name : string) (chain : list string) | OD.
+Inductive tnode := TText (s : string) | TAct (cmds : list (list oper)).
 Inductive tpl_res := TOk (nodes : list tnode) | TErr | TUnmodelled.
 
 Definition is_space (c : ascii) : bool :=
@@ -91,22 +94,27 @@ Fixpoint lex_action (fuel : nat) (s : string) (acc : list atok) : lres :=
 (* pipeline / command / operand / term over the tokens of one action, as a state machine:
    MStart = pipeline() expects a command or the delimiter; MIn = inside a command behind a space;
    MAfterF / MAfterD = directly behind a field / the dot *)
-Inductive oper := OF (name : string) | OD.
 Inductive pmode := MStart | MIn | MAfterF | MAfterD.
+Fixpoint chain_last (cur : list oper) (n : string) : list oper :=
+  match cur with
+  | [] => []
+  | [OF a ch] => [OF a (ch ++ [n])%list]
+  | x :: r => x :: chain_last r n
+  end.
 Fixpoint parse_action (ts : list atok) (m : pmode) (cmds : list (list oper)) (cur : list oper) : option (list (list oper)) :=
   match ts with
   | [] => match m with MStart => Some cmds | _ => Some (cmds ++ [cur])%list end
   | t :: r =>
     match m, t with
     | MStart, ASp => parse_action r MStart cmds cur
-    | MStart, AField n => parse_action r MAfterF cmds [OF n]
+    | MStart, AField n => parse_action r MAfterF cmds [OF n []]
     | MStart, ADot => parse_action r MAfterD cmds [OD]
     | MStart, APipe => None                                          (* unexpected "|" in command *)
-    | MAfterF, AField _ => parse_action r MAfterF cmds cur           (* .a.b : one FieldNode, Ident = [a; b] *)
+    | MAfterF, AField n => parse_action r MAfterF cmds (chain_last cur n)   (* .a.b : one FieldNode, Ident = [a; b] *)
     | MAfterF, ADot => None                                          (* unexpected <.> in operand *)
     | MAfterD, AField _ => None                                      (* unexpected . after term "." *)
     | MAfterD, ADot => None
-    | MIn, AField n => parse_action r MAfterF cmds (cur ++ [OF n])%list
+    | MIn, AField n => parse_action r MAfterF cmds (cur ++ [OF n []])%list
     | MIn, ADot => parse_action r MAfterD cmds (cur ++ [OD])%list
     | _, ASp => parse_action r MIn cmds cur
     | _, APipe => parse_action r MStart (cmds ++ [cur])%list []
@@ -118,8 +126,6 @@ Definition check_pipeline (cmds : list (list oper)) : bool :=
   | [] => false
   | _ :: tl => forallb (fun c => match c with OD :: _ => false | _ => true end) tl
   end.
-Definition fields (cmds : list (list oper)) : list string :=
-  flat_map (fun c => flat_map (fun o => match o with OF n => [n] | OD => [] end) c) cmds.
 
 (* ---------- the whole template ---------- *)
 Definition push_text (t : string) (acc : list tnode) : list tnode :=
@@ -148,7 +154,7 @@ Fixpoint tpl_lex (fuel : nat) (s : string) (text : string) (acc : list tnode) : 
           | None => TErr
           | Some cmds =>
             if check_pipeline cmds
-            then tpl_lex f (if rt then ltrim rest else rest) "" (rev (map TField (fields cmds)) ++ acc1)%list
+            then tpl_lex f (if rt then ltrim rest else rest) "" (TAct cmds :: acc1)
             else TErr
           end
         end
@@ -157,15 +163,96 @@ Fixpoint tpl_lex (fuel : nat) (s : string) (text : string) (acc : list tnode) : 
   end.
 Definition tpl_parse (t : string) : tpl_res := tpl_lex (S (String.length t)) t "" [].
 
-(* ---------- textNode / fieldNode: the format string and its arguments ---------- *)
-Fixpoint tpl_fmt (ns : list tnode) (k : N) : string * list string :=
-  match ns with
+(* ---------- visitNodes with textNode / fieldNode: the format string and its arguments ---------- *)
+(* what visitNodes reaches, in order: the text nodes and the fields that are operands of a command (Ident[0] only) *)
+Inductive piece := PText (s : string) | PField (name : string).
+Definition act_fields (cmds : list (list oper)) : list string :=
+  flat_map (fun c => flat_map (fun o => match o with OF n _ => [n] | OD => [] end) c) cmds.
+Definition pieces (ns : list tnode) : list piece :=
+  flat_map (fun n => match n with TText s => [PText s] | TAct cmds => map PField (act_fields cmds) end) ns.
+
+(* strings.NewReplacer("{", "{{", "}", "}}") *)
+Definition esc_braces (s : string) : string :=
+  map_string (fun c => if Ascii.eqb c "{" then "{{" else if Ascii.eqb c "}" then "}}" else ch c) s.
+Fixpoint tpl_fmt (ps : list piece) (k : N) : string * list string :=
+  match ps with
   | [] => ("", [])
-  | TText s :: r => let '(f, a) := tpl_fmt r k in (s ++ f, a)
-  | TField n :: r => let '(f, a) := tpl_fmt r (k + 1) in ("{" ++ string_of_N k ++ "}" ++ f, n :: a)
+  | PText s :: r => let '(f, a) := tpl_fmt r k in (esc_braces s ++ f, a)
+  | PField n :: r => let '(f, a) := tpl_fmt r (k + 1) in ("{" ++ string_of_N k ++ "}" ++ f, n :: a)
   end.
-(* sqlFormat.String: fmt.Sprintf("format(%s, %s)", StringVal(format), strings.Join(args, ", ")), every argument
-   fmt.Sprintf("labels[%s]", StringVal(name)) *)
+Fixpoint tpl_text (ps : list piece) : string :=
+  match ps with
+  | [] => ""
+  | PText s :: r => s ++ tpl_text r
+  | PField _ :: r => tpl_text r
+  end.
+Definition label_arg (n : string) : expr := Idx (Id "labels") (StrV n).     (* fmt.Sprintf("labels[%s]", StringVal(name)) *)
+(* the expression that replaces the `string` column: without a field the template text itself, else sqlFormat:
+   fmt.Sprintf("format(%s, %s)", StringVal(format), strings.Join(args, ", ")) *)
 Definition tpl_sql (ns : list tnode) : expr :=
-  let '(f, a) := tpl_fmt ns 0 in
-  Sep "" [Raw "format("; StrV f; Raw ", "; Sep ", " (map (fun n => Idx (Id "labels") (StrV n)) a); Raw ")"].
+  let ps := pieces ns in
+  let '(f, a) := tpl_fmt ps 0 in
+  match a with
+  | [] => StrV (tpl_text ps)
+  | _ => Sep "" [Raw "format("; StrV f; Raw ", "; Sep ", " (map label_arg a); Raw ")"]
+  end.
+
+(* ================= what the expression computes ================= *)
+(* ClickHouse format(pattern, s0, s1, ...) as its documentation describes it: the pattern is copied; {{ and }} give one brace;
+   {n} is replaced by argument n. Anything else in braces ({} = automatic numbering, names, a lone brace) has no value here
+   (None): the planner never prints such a pattern. A scanner state per byte, no look-ahead. *)
+Inductive fstate := FN | FOpen (digits : string) | FClose.
+Fixpoint fmt_run (p : string) (st : fstate) (args : list string) : option string :=
+  match p with
+  | EmptyString => match st with FN => Some "" | _ => None end
+  | String c r =>
+    match st with
+    | FN => if Ascii.eqb c "{" then fmt_run r (FOpen "") args
+            else if Ascii.eqb c "}" then fmt_run r FClose args
+            else option_map (String c) (fmt_run r FN args)
+    | FClose => if Ascii.eqb c "}" then option_map (String "}") (fmt_run r FN args) else None
+    | FOpen ds =>
+      if Ascii.eqb c "{" then (if String.eqb ds "" then option_map (String "{") (fmt_run r FN args) else None)
+      else if Ascii.eqb c "}" then
+        match N_of_dec ds with
+        | Some k => match nth_error args (N.to_nat k) with
+                    | Some a => option_map (append a) (fmt_run r FN args)
+                    | None => None end
+        | None => None
+        end
+      else if is_digit c then fmt_run r (FOpen (ds ++ ch c)) args
+      else None
+    end
+  end.
+Definition format_eval (pattern : string) (args : list string) : option string := fmt_run pattern FN args.
+
+(* labels['name'] on a Map(String, String): the value, '' when the key is absent *)
+Fixpoint lookup (lbls : list (string * string)) (n : string) : string :=
+  match lbls with [] => "" | (k, v) :: r => if String.eqb k n then v else lookup r n end.
+
+(* value of the column expression tpl_sql over a row with these labels *)
+Definition tpl_sql_value (ns : list tnode) (lbls : list (string * string)) : option string :=
+  let ps := pieces ns in
+  let '(f, a) := tpl_fmt ps 0 in
+  match a with
+  | [] => Some (tpl_text ps)
+  | _ => format_eval f (map (lookup lbls) a)
+  end.
+
+(* Execution of the parsed template by text/template over a map[string]string, where it succeeds with a plain text:
+   an action that is exactly one field of one identifier prints the map entry ("" for an absent key, the zero value
+   of the element type). A longer chain, a second operand or a pipe into a field fail at execution (a string has no field,
+   a field is not a function); the dot prints Go's rendering of the map: no reference value (None). *)
+Definition act_exec (cmds : list (list oper)) (lbls : list (string * string)) : option string :=
+  match cmds with
+  | [[OF n []]] => Some (lookup lbls n)
+  | _ => None
+  end.
+Fixpoint tpl_exec (ns : list tnode) (lbls : list (string * string)) : option string :=
+  match ns with
+  | [] => Some ""
+  | TText s :: r => option_map (append s) (tpl_exec r lbls)
+  | TAct cmds :: r => match act_exec cmds lbls, tpl_exec r lbls with
+                      | Some a, Some b => Some (a ++ b)
+                      | _, _ => None end
+  end.
